@@ -251,11 +251,20 @@ func report(g *Gen, prop, tier, verif string, results []*funcResult, wall, loadS
 		}
 	}
 	known := map[string]knownFinding{}
+	// findings listed under ANOTHER property: the same obligation can belong to several checks (package-props); the
+	// defect is reported by the check of the property it is listed under and is not a violation of this one
+	knownElsewhere := map[string]knownFinding{}
 	for _, f := range kf.Findings {
 		if f.Property == prop {
 			known[f.Obligation] = f
 		}
 	}
+	for _, f := range kf.Findings {
+		if _, here := known[f.Obligation]; !here && f.Property != prop {
+			knownElsewhere[f.Obligation] = f
+		}
+	}
+	var elsewhereNames []string
 	exit := 0
 	var failed, knownHit []*Obl
 	total, discharged, covers, coversOK := 0, 0, 0, 0
@@ -305,6 +314,10 @@ func report(g *Gen, prop, tier, verif string, results []*funcResult, wall, loadS
 			}
 			if _, isKnown := known[o.Name]; isKnown {
 				knownHit = append(knownHit, o)
+				continue
+			}
+			if f, other := knownElsewhere[o.Name]; other {
+				elsewhereNames = append(elsewhereNames, o.Name+" (listed under "+f.Property+")")
 				continue
 			}
 			total++
@@ -409,6 +422,7 @@ func report(g *Gen, prop, tier, verif string, results []*funcResult, wall, loadS
 			"load_s":                   round3(loadSecs),
 			"vacuity_covers":           map[string]int{"run": covers, "passed": coversOK},
 			"known_finding_obligations": knownNames,
+			"known_findings_listed_under_other_properties": elsewhereNames,
 			"samples":                  samples,
 		},
 		"assumptions": as,
